@@ -49,6 +49,12 @@ fn main() {
         // per-name section, if any:  {"by_name": {"less": {...}, "git": {...}}}
         let name = std::path::Path::new(&args[0]).file_name().unwrap().to_string_lossy().to_string();
         let v = v.get("by_name").and_then(|m| m.get(&name)).cloned().unwrap_or(v);
+        // per-argument section: {"if_arg": {"--version": {...}}} (first match wins)
+        let v = v
+            .get("if_arg")
+            .and_then(|m| m.as_object())
+            .and_then(|m| m.iter().find(|(k, _)| args[1..].iter().any(|a| a == *k)).map(|(_, s)| s.clone()))
+            .unwrap_or(v);
         let mut stdin_len = 0usize;
         if v.get("read_stdin").and_then(|x| x.as_bool()).unwrap_or(false) {
             let mut buf = Vec::new();
@@ -96,6 +102,12 @@ fn main() {
                 let _ = so.write_all(&b);
                 let _ = so.flush();
             }
+        }
+        if let Some(s) = v.get("stdout").and_then(|x| x.as_str()) {
+            let so = std::io::stdout();
+            let mut so = so.lock();
+            let _ = so.write_all(s.as_bytes());
+            let _ = so.flush();
         }
         if let Some(s) = v.get("stderr").and_then(|x| x.as_str()) {
             eprint!("{}", s);
